@@ -27,6 +27,8 @@ def new_interp(prog, tid, pid):
     models_sync.install(I)
     models_sync.install_notify(I)
     models_ctor.install(I)
+    import models_coll
+    models_coll.install(I)
     I.cur_tid = tid
     I.waiter_index = 0
     I.objinfo = {'registry': {'name': 'registry'}, 'pidreg': {'name': 'pidreg'}, 'status': {'name': 'status'}, 'notify': {'name': 'wait_handler'}}
@@ -79,7 +81,8 @@ def new_interp(prog, tid, pid):
         if isinstance(m, BoxV):
             m = I.read(st, m.cell, ())
         if isinstance(m, Obj) and m.oid == 'pidlisteners':
-            return I.ret(st, Agg('EmptyIter', ()))
+            import models_coll
+            return I.ret(st, models_coll.mk_iter('list', Agg('()', ()), 0))
         raise Unmodelled('DashMap::iter on %r' % (m,))
 
     @I.model(r'^<dashmap::iter::Iter<.*> as Iterator>::next$', 'empty dashmap iterator')
